@@ -29,11 +29,11 @@ def gen_case(st, prop):
     """Draw one case.  ``st``: rng.Streams of the run; ``prop``: 'C06'|'C07'."""
     r = st['mode']
     if prop == 'C06':
-        mode = weighted(r, [('doc', 55), ('alphabet', 25), ('deep', 8),
-                            ('corpus', 4), ('sweep', 8)])
+        mode = weighted(r, [('doc', 50), ('alphabet', 22), ('deep', 10),
+                            ('corpus', 4), ('sweep', 6), ('repeat', 8)])
     else:
-        mode = weighted(r, [('recover', 45), ('doc', 30), ('alphabet', 15),
-                            ('deep', 5), ('corpus', 5)])
+        mode = weighted(r, [('recover', 45), ('doc', 28), ('alphabet', 13),
+                            ('deep', 5), ('corpus', 4), ('repeat', 5)])
     return GENERATORS[mode](st)
 
 
@@ -62,14 +62,46 @@ def g_doc(st, profile=None, restricted=False):
     elif plan == 'chars':
         sites = [b - 1 for i, b in enumerate(d.bounds) if i in set(d.hot_sites())]
     faults = simreader.draw_faults(rf, wire, nf, swarm, sites)
+    # annotate each fault with the construct at its site (for the coverage grid)
+    if plan in ('tokens', 'chars'):
+        import bisect
+        for f in faults:
+            ti = f['at'] if plan == 'tokens' else bisect.bisect_right(d.bounds, f['at'])
+            if 0 <= ti < len(d.toks):
+                t = d.toks[ti]
+                f['site'] = t.tag + ('/' + t.region if t.region else '')
+            else:
+                f['site'] = 'end'
     return {'mode': 'doc', 'profile': d.profile, 'plan': plan, 'wire': wire,
             'faults': faults, 'form': _form(st), 'skip_envs': _skip_envs(st),
             'recover': False, 'depth': d.max_depth()}
 
 
 def g_deep(st):
-    profile = ('deep', 'alternate')[st['doc'].randrange(2)]
-    return dict(g_doc(st, profile=profile), mode='deep')
+    profile = ('deep', 'deep', 'alternate')[st['doc'].randrange(3)]
+    case = dict(g_doc(st, profile=profile), mode='deep')
+    rf = st['faults']
+    if rf.random() < 0.5 and case['wire']:
+        # a prefix of a deeply nested document: everything still open at EOF
+        n = len(case['wire'])
+        case['faults'] = [{'kind': 'EOF', 'at': rf.randrange(n // 3, n + 1), 'site': 'deep-prefix'}]
+    return case
+
+
+def g_repeat(st):
+    """A short unit of alphabet symbols repeated up to the depth bound: the
+    classic shape for unbounded re-scanning or backtracking (nesting depth 40)."""
+    r = st['doc']
+    unit = [simreader.ALPHABET[r.randrange(len(simreader.ALPHABET))] for _ in range(r.randrange(1, 4))]
+    if r.random() < 0.5:
+        openers = ['{', '[', '$', '\\(', '\\[', '$$', '\\begin{e}', '\\item', '\\left(', '\\foo{', '\\begin{itemize}',
+                   '\\begin{equation}', '\\x[']
+        unit[r.randrange(len(unit))] = openers[r.randrange(len(openers))]
+    k = r.randrange(5, 41)
+    wire = unit * k
+    tail = [simreader.ALPHABET[r.randrange(len(simreader.ALPHABET))] for _ in range(r.randrange(0, 3))]
+    return {'mode': 'repeat', 'profile': 'repeat', 'plan': 'symbols', 'wire': wire + tail, 'faults': [],
+            'form': _form(st), 'skip_envs': _skip_envs(st), 'recover': False, 'depth': k}
 
 
 def g_alphabet(st):
@@ -150,7 +182,7 @@ def g_recover(st):
             'what': what, 'depth': d.max_depth()}
 
 
-GENERATORS = {'doc': g_doc, 'deep': g_deep, 'alphabet': g_alphabet,
+GENERATORS = {'doc': g_doc, 'deep': g_deep, 'repeat': g_repeat, 'alphabet': g_alphabet,
               'corpus': g_corpus, 'sweep': g_sweep, 'recover': g_recover}
 
 
@@ -215,6 +247,9 @@ def align(D, T, closers, allow_insert=True):
     if D == T:
         return True, 0, '', None
     nD, nT = len(D), len(T)
+    if nT > 40 * nD + 4000:
+        # output blown up by repeated closers with huge names: too large to align
+        return True, -1, 'output too large to align (skipped)', None
     # droppable[i]: D[i] is whitespace whose run is directly followed by { or [
     droppable = [False] * nD
     i = nD - 1
@@ -309,7 +344,8 @@ def _diagnose(D, T, closers, droppable):
                 else:
                     dq.append(nxt)
     if end is None:
-        return False, 0, 'altered-characters (alignment search too large to localise)', (0, 0)
+        # undecided within the search budget: never an alarm (counted as skipped)
+        return True, -1, 'alignment search too large (skipped)', None
     edits = []
     st = end
     while dist[st][1] is not None:
@@ -362,6 +398,10 @@ def execute(case, props=('C06', 'C07')):
         if o.kind == 'tree':
             try:
                 s = str(o.soup)
+            except MemoryError:
+                s = None
+                o.kind = 'leak'
+                o.exc = 'MemoryError'
             except Exception as e:  # noqa: BLE001
                 s = None
                 o.kind = 'leak'
@@ -371,6 +411,13 @@ def execute(case, props=('C06', 'C07')):
         if rd.form in ('gen', 'filelike') and not rd.exhausted and o.kind == 'tree':
             count('reader.not_drained')
 
+    for f in applied:
+        if 'site' in f:
+            for t in (0, 1):
+                count('grid.%s.%s.t%d.%s' % (f['kind'], f['site'], t, outs[t].kind))
+    buckets = {}
+    if case['mode'] == 'alphabet' and len(case['wire']) <= 4:
+        buckets['alphabet-symbols-%d' % len(case['wire'])] = digest(case['wire'])
     verdicts = {}
     extra_summary = {}
     # ---------------- C06 ----------------
@@ -378,7 +425,11 @@ def execute(case, props=('C06', 'C07')):
         v = None
         for t in (0, 1):
             o = outs[t]
-            if o.kind == 'leak':
+            if o.kind == 'leak' and o.exc == 'MemoryError':
+                v = {'class': 'resource-exhaustion:memory', 'detail': 'tolerance=%d exhausted the %s MiB memory cap '
+                     'on %d chars (a practical hang)' % (t, __import__('os').environ.get('TSIM_MEM_CAP_MB', '1024'), len(D)),
+                     'tolerance': t}
+            elif o.kind == 'leak':
                 v = {'class': 'leak:%s@%s' % (o.exc, (o.where or '?').split(':')[0]), 'detail': 'tolerance=%d raised %s at %s: %s'
                      % (t, o.exc, o.where, o.msg), 'tolerance': t}
             elif o.kind == 'hang':
@@ -453,8 +504,10 @@ def execute(case, props=('C06', 'C07')):
                 # that name: collect their names by reading the name too
                 from TexSoup import TexSoup as _TS
                 pending = [n for n in names if '\\' in n]
-                for _ in range(3):
+                for _ in range(45):
                     nxt = []
+                    if not pending or sum(len(n) for n in pending) > 200_000:
+                        break
                     for n in pending:
                         try:
                             more = env_names_of(_TS(n, tolerance=1)) - names
@@ -483,19 +536,23 @@ def execute(case, props=('C06', 'C07')):
                 count('c07.c.side-condition-skip')
         verdicts['C07'] = v
 
-    nontrivial = bool(applied) or case['mode'] in ('alphabet',)
+    nontrivial = bool(applied) or case['mode'] in ('alphabet', 'repeat')
     return {'verdicts': verdicts, 'log': log, 'digest': digest(log), 'counters': counters,
             'ticks': ticks, 'key': digest([D, case.get('skip_envs', [])]),
-            'nontrivial': nontrivial, 'D': D, 'extra_summary': extra_summary,
+            'nontrivial': nontrivial, 'D': D, 'extra_summary': extra_summary, 'buckets': buckets,
             'outcomes': [outs[0].brief(), outs[1].brief()]}
 
 
 # ---------------------------------------------------------------------------
 # minimisation
 # ---------------------------------------------------------------------------
-def minimize(case, fails):
+def minimize(case, fails, slow=False):
     """Shrink while ``fails(candidate)`` (same violation class) holds."""
-    from .minimize import ddmin_list
+    from .minimize import ddmin_list as _dd
+    budget = 14 if slow else 600
+
+    def ddmin_list(items, test):
+        return _dd(items, test, max_tests=budget)
     cur = dict(case)
     # 1. fewer faults
     if cur.get('faults'):
